@@ -95,7 +95,7 @@ func TestC08Standin(t *testing.T) {
 	var samples []string
 	fail := func(class, input, detail string) {
 		classes[class]++
-		if classes[class] <= 5 {
+		if classes[class] <= 60 { // generous: failures are re-classified after the fact (known finding)
 			failures = append(failures, failure{class, input, detail})
 		}
 	}
@@ -105,6 +105,7 @@ func TestC08Standin(t *testing.T) {
 		nConv := 2 + rng.Intn(5)
 		var pkts []c08Packet
 		longLived := false
+		slowConv := map[int]bool{} // conversations that last longer than the idle limit
 		filler := 0
 		if round == 0 && os.Getenv("C08_SNAPSHOT") != "0" {
 			// one round with a capture large enough for a reassembly snapshot (100000 packets): a conversation that
@@ -129,6 +130,7 @@ func TestC08Standin(t *testing.T) {
 						// a long lived conversation: every gap is below the 5 minute idle limit, the whole is not
 						at += time.Duration(120+rng.Intn(120)) * time.Second
 						longLived = longLived || k > 2
+						slowConv[c] = true
 					} else {
 						at += time.Duration(1+rng.Intn(30)) * time.Second
 					}
@@ -302,31 +304,34 @@ func TestC08Standin(t *testing.T) {
 		}{{"one by one, in order", inOrder, false, false}, {fmt.Sprintf("one by one, order %v", shuffled), shuffled, false, false}, {"one by one with restarts", inOrder, true, false}, {"one call per capture, back to back", inOrder, false, true}} {
 			// arrival out of order of a conversation longer than the idle limit: a known finding (a flow that was
 			// split by the idle limit while a capture in its middle was missing keeps its second stream when the
-			// capture arrives); failures of these evaluations are classified apart
+			// capture arrives). Only failures that name such a conversation are classified apart.
 			knownClass := longLived && strings.HasPrefix(w.name, "one by one, order")
 			if knownClass && filler > 0 {
 				continue
 			}
-			before := map[string]int{}
-			for k, v := range classes {
-				before[k] = v
+			isSlow := func(text string) bool {
+				for c := range slowConv {
+					if strings.Contains(text, fmt.Sprintf("9.0.%d.%d:%d", round%250, c, 1000+c)) {
+						return true
+					}
+				}
+				return false
 			}
 			nf := len(failures)
 			evals++
 			got, ok := run(w.name, w.order, false, w.restart, w.queued)
 			if knownClass {
-				// re-label what this evaluation reported
-				for k, v := range classes {
-					if v != before[k] {
-						classes["out-of-order-long-lived"] += v - before[k]
-						classes[k] = before[k]
-						if classes[k] == 0 {
-							delete(classes, k)
-						}
-					}
-				}
+				// what this evaluation reported about a long lived conversation belongs to the known class
+				// (only the first five failures of a class are kept with their text; the others keep their class)
 				for i := nf; i < len(failures); i++ {
-					failures[i].Class = "out-of-order-long-lived"
+					if (failures[i].Class == "two-ids" || failures[i].Class == "id-not-kept") && isSlow(failures[i].Detail) {
+						classes[failures[i].Class]--
+						if classes[failures[i].Class] == 0 {
+							delete(classes, failures[i].Class)
+						}
+						failures[i].Class = "out-of-order-long-lived"
+						classes["out-of-order-long-lived"]++
+					}
 				}
 			}
 			if !ok {
@@ -335,7 +340,24 @@ func TestC08Standin(t *testing.T) {
 			if strings.Join(got, "\n") != strings.Join(ref, "\n") {
 				cls := "differs"
 				if knownClass {
-					cls = "out-of-order-long-lived"
+					// known only if every stream that differs belongs to a long lived conversation
+					inRef := map[string]bool{}
+					for _, l := range ref {
+						inRef[l] = true
+					}
+					inGot := map[string]bool{}
+					for _, l := range got {
+						inGot[l] = true
+					}
+					onlySlow := true
+					for _, l := range append(append([]string(nil), ref...), got...) {
+						if inRef[l] != inGot[l] && !isSlow(l) {
+							onlySlow = false
+						}
+					}
+					if onlySlow {
+						cls = "out-of-order-long-lived"
+					}
 				}
 				fail(cls, input, fmt.Sprintf("%s shows %v, importing everything at once shows %v", w.name, got, ref))
 			} else {
